@@ -78,6 +78,11 @@ func buildC10Inband(tier string) sim.Scenario {
 				s.WriteRtpPacket(mkRTP(rtp.ChannelVideo, 96, seq, ts, true, oracle.MakeNAL(oracle.H264, 1, id, 40+tp.Choose(600))))
 				id++
 				seq++
+				if tp.OneIn(6) { // a header-only end-of-sequence unit (1 byte) in a packet of its own, same access unit
+					w.Probe("c10ib.header-only-unit")
+					s.WriteRtpPacket(mkRTP(rtp.ChannelVideo, 96, seq, ts, true, []byte{10}))
+					seq++
+				}
 			}
 			if withAudio {
 				s.WriteRtpPacket(mkRTP(rtp.ChannelAudio, 97, aseq, uint32(t*44100/1000), true, aacPayload(blob(60000+id, 40+tp.Choose(100)))))
